@@ -10,7 +10,7 @@ use serde::{Deserialize, Serialize};
 use crate::cfg::{AvailableValueMap, MathOp};
 use crate::parser::{
     CsrImm, HasRegisterSets, InstructionProperties, LabelString, LabelStringToken, LoadType,
-    RegisterProperties,
+    RegisterProperties, StoreType,
 };
 use crate::parser::{ParserNode, Register};
 use crate::passes::{CfgError, GenerationPass};
@@ -182,8 +182,30 @@ impl GenerationPass for AvailableValuePass {
                     if let Some((MemoryLocation::StackOffset(offset), value)) =
                         node.gen_memory_value()
                     {
+                        let width = store_width(&node.node());
                         if let Some(curr_stack) = node.reg_values_in().stack_offset() {
-                            map.insert(MemoryLocation::StackOffset(curr_stack + offset), value);
+                            // The store overwrites `width` bytes: every slot it
+                            // overlaps no longer holds its recorded word
+                            let start = i64::from(curr_stack) + i64::from(offset);
+                            map = retain_values(map, |location, _| match location {
+                                MemoryLocation::StackOffset(slot) => {
+                                    let slot = i64::from(*slot);
+                                    slot + 4 <= start || start + width <= slot
+                                }
+                                _ => true,
+                            });
+                            // Only a word store fills a whole slot
+                            if width == 4 {
+                                map.insert(
+                                    MemoryLocation::StackOffset(curr_stack.wrapping_add(offset)),
+                                    value,
+                                );
+                            }
+                        } else {
+                            // Unknown position: any slot may have been overwritten
+                            map = retain_values(map, |location, _| {
+                                !matches!(location, MemoryLocation::StackOffset(_))
+                            });
                         }
                     } else if let Some((memory, value)) = node.gen_memory_value() {
                         map.insert(memory, value);
@@ -233,6 +255,32 @@ impl GenerationPass for AvailableValuePass {
 /// replace it with a constant zero. This is because constants are easier
 /// to deal with than registers and the analysis has no idea how to deal
 /// with the zero register.
+/// Keep only the entries of a map that satisfy a predicate.
+fn retain_values<T: PartialEq + Eq + Hash>(
+    map: AvailableValueMap<T>,
+    keep: impl Fn(&T, &AvailableValue) -> bool,
+) -> AvailableValueMap<T> {
+    let mut kept = AvailableValueMap::new();
+    for (key, value) in map {
+        if keep(&key, &value) {
+            kept.insert(key, value);
+        }
+    }
+    kept
+}
+
+/// Number of bytes written by a store instruction.
+fn store_width(node: &ParserNode) -> i64 {
+    match node {
+        ParserNode::Store(store) => match store.inst.get() {
+            StoreType::Sb => 1,
+            StoreType::Sh => 2,
+            StoreType::Sw => 4,
+        },
+        _ => 0,
+    }
+}
+
 fn rule_zero_to_const(
     available_out: &mut AvailableValueMap<Register>,
     available_in: &AvailableValueMap<Register>,
